@@ -1288,6 +1288,9 @@ static void op_winfo(Cur &c, Out &o)
     }
     for (size_t i = 0; i < n; i++)
         rep.vec_term_reason.push_back(reasons[i].c_str());
+    // optional: how long the run took (the one field of the report no property speaks about; nothing else may depend on it)
+    if (c.p < c.t.size())
+        rep.duration = c.flt();
     std::string p = scratch_path("run_info.dat");
     write_info_file(p, rep);
     std::ifstream in(p);
